@@ -41,14 +41,14 @@ CONSTANTS Codes,      \* status codes the upstream may use
           Kinds,      \* upstream fault kinds, subset of AllKinds
           CutCodes,   \* codes for which the upstream may stop early / the clock may run (generation bound)
           UpModes,    \* timing disciplines of the upstream: "free" (MC) | "fast" | "pause" | "trickle" (generation)
-          Requests,   \* client requests [m, uri, q, ver, hdrs, body, client]
+          Requests,   \* client requests [m, uri, q, ver, hdrs, xff, body, pad, peer] (see ProxyMsg.tla)
           Routes,     \* route patterns (strings, `*` = wildcard)
           Entries,    \* subset of {"core", "handler"}: proxy_request directly / through proxy_handler
           Timeout,    \* deadline in ticks
           Record,     \* TRUE: keep the upstream's event history (generation)
           Dev
 
-AllKinds == {"ok", "refuse", "blackhole", "garbage", "badhdr", "badcl", "badchunk"}
+AllKinds == {"ok", "refuse", "blackhole", "noread", "garbage", "badhdr", "badcl", "badchunk"}
 
 (***************************************************************************)
 (* What the upstream can say                                               *)
@@ -78,6 +78,7 @@ Scenarios ==
   { [kind |-> "ok", g |-> "", resp |-> r] : r \in IF "ok" \in Kinds THEN Resps ELSE {} }
   \cup { [kind |-> "refuse", g |-> "", resp |-> r] : r \in IF "refuse" \in Kinds THEN { CHOOSE x \in Resps : TRUE } ELSE {} }
   \cup { [kind |-> "blackhole", g |-> "", resp |-> r] : r \in IF "blackhole" \in Kinds THEN { CHOOSE x \in Resps : TRUE } ELSE {} }
+  \cup { [kind |-> "noread", g |-> "", resp |-> r] : r \in IF "noread" \in Kinds THEN { CHOOSE x \in Resps : TRUE } ELSE {} }
   \cup { [kind |-> "garbage", g |-> g, resp |-> r] : g \in GarbageForms, r \in IF "garbage" \in Kinds THEN { CHOOSE x \in Resps : TRUE } ELSE {} }
   \cup { [kind |-> "badhdr", g |-> "", resp |-> r] : r \in IF "badhdr" \in Kinds THEN Resps ELSE {} }
   \cup { [kind |-> "badcl", g |-> "", resp |-> r] : r \in IF "badcl" \in Kinds THEN { x \in Resps : x.fr = "cl" } ELSE {} }
@@ -87,6 +88,7 @@ ScnWire(sc) ==
   CASE sc.kind = "ok"       -> Wire(sc.resp)
     [] sc.kind = "refuse"   -> <<>>
     [] sc.kind = "blackhole" -> <<>>
+    [] sc.kind = "noread"   -> <<>>        \* accepts, never reads the request, never answers
     [] sc.kind = "garbage"  -> <<S("garbage", sc.g, 0, 0)>>
     [] sc.kind = "badhdr"   -> InsertAt(Wire(sc.resp), 2, S("badhdr", "", 0, 0))
     [] sc.kind = "badcl"    -> ReplaceFirst(Wire(sc.resp), "cl", S("badcl", "", 0, 0))
@@ -124,12 +126,18 @@ Init ==
 
 Avail    == rpos < upos
 Eof      == ust = "closed" /\ rpos = upos
-TimerOn  == IF "NoReadTimeout" \in Dev THEN pc = "connect" ELSE TRUE
+TimerOn  == CASE "NoReadTimeout" \in Dev        -> pc = "connect"
+              [] "WriteWithoutDeadline" \in Dev -> pc # "write"
+              [] OTHER                          -> TRUE
 TimedOut == TimerOn /\ now - armed >= Timeout
 CanRead  == Avail \/ Eof \/ TimedOut \/ ("GiveUpOnEmptyRead" \in Dev)
 CanConnect == ust # "blackhole" \/ TimedOut          \* the handshake of a black-holed target never completes
-ProxyCanStep == pc \in {"strip", "write", "map"} \/ (pc = "connect" /\ CanConnect) \/ (pc = "read" /\ CanRead)
-Blocked  == (pc = "read" /\ ~CanRead) \/ (pc = "connect" /\ ~CanConnect)
+\* write_all blocks when the target does not read and the request exceeds what the socket buffers take (pad > 0);
+\* it returns with an error at the deadline or when the target closes
+WriteBlocks == scn.kind = "noread" /\ req.pad > 0
+CanWrite == ~WriteBlocks \/ TimedOut \/ ust = "closed"
+ProxyCanStep == pc \in {"strip", "map"} \/ (pc = "connect" /\ CanConnect) \/ (pc = "write" /\ CanWrite) \/ (pc = "read" /\ CanRead)
+Blocked  == (pc = "read" /\ ~CanRead) \/ (pc = "connect" /\ ~CanConnect) \/ (pc = "write" /\ ~CanWrite)
 
 (***************************************************************************)
 (* Proxy                                                                   *)
@@ -154,13 +162,19 @@ P_Connect ==
 
 \* clone the request, add X-Forwarded-For, write_all
 P_Write ==
-  /\ pc = "write"
-  /\ fwd' = [m |-> req.m, uri |-> puri, q |-> req.q, ver |-> req.ver, body |-> req.body,
-             hdrs |-> IF "NoXff" \in Dev THEN req.hdrs
-                      ELSE Append(req.hdrs, XffOf(IF "XffProxyAddr" \in Dev THEN "proxy" ELSE req.client))]
-  /\ pc' = "read"
+  /\ pc = "write" /\ CanWrite
+  /\ LET a == AddrOf(req)
+         \* request.address.origin_addr.to_string(); Address's Display adds " (proxied)" when there are proxies
+         v == IF "XffProxyAddr" \in Dev THEN "proxy"
+              ELSE IF "XffDisplaySuffix" \in Dev /\ a.proxies # <<>> THEN a.origin \o " (proxied)" ELSE a.origin IN
+     fwd' = [m |-> req.m, uri |-> puri, q |-> req.q, ver |-> req.ver, body |-> req.body,
+             hdrs |-> IF "NoXff" \in Dev THEN ReqHdrs(req) ELSE Append(ReqHdrs(req), XffOf(v))]
+  /\ IF WriteBlocks
+     THEN /\ ps' = Fail(ps, "err") /\ pc' = "map"
+          /\ lastin' = IF TimedOut THEN "timeout" ELSE "eof"
+     ELSE /\ ps' = ps /\ pc' = "read" /\ lastin' = lastin
   /\ armed' = IF "PerOpTimeout" \in Dev THEN now ELSE armed
-  /\ UNCHANGED <<uvars, upos, ust, lastsend, cvars, puri, ps, rpos, lastin, answer, now, hist>>
+  /\ UNCHANGED <<uvars, upos, ust, lastsend, cvars, puri, rpos, answer, now, hist>>
 
 \* one read_until / read_exact of Response::from_stream
 P_Read ==
@@ -237,7 +251,7 @@ Inv_NoPanic == answer.kind # "panic"
 
 \* the upstream received the client's request, prefix stripped, X-Forwarded-For = client
 Inv_Forwarded ==
-  (pc \in {"read", "map", "done"} /\ scn.kind \notin {"refuse", "blackhole"}) => FwdEq(fwd, Forward(req, route, entry))
+  (pc \in {"read", "map", "done"} /\ scn.kind \notin {"refuse", "blackhole", "noread"}) => FwdEq(fwd, Forward(req, route, entry))
 
 \* within the configured timeout (scheduling slack = 0 in the model: the proxy is urgent)
 Inv_Timely == pc # "done" => now <= Timeout
